@@ -464,3 +464,398 @@ def containment(d, p):
     reveal(code_match, d, p)
     r = call(D + "DirectoryMatcher._check_path_match", None, d, p)
     return r[0] == spec_contains(d, p)
+
+
+# =================================================================== pattern validator: invalid patterns are rejected
+# Property text: "a syntactically invalid pattern is rejected as a configuration error" -- validate_config raises
+# ValueError if and only if SOME pattern of SOME section (every allow and deny list of every directory rule,
+# global_patterns, global_deny) does not compile. re.compile is external: it raises re.error exactly on the patterns for
+# which re_valid is false (the regex engine is trusted).
+import z3 as _z3  # noqa: E402
+from pyvc.ex_call import external as _external  # noqa: E402
+from pyvc.run import RaiseSig as _RaiseSig  # noqa: E402
+from pyvc.ty import VExc as _VExc, VOpaque as _VOpaque  # noqa: E402
+from contracts._common import re_valid  # noqa: E402,F811
+
+
+
+@_external("re.compile")
+def _re_compile(ex, args, kwargs, lineno):
+    """re.compile(p[, flags]): raises re.error iff the pattern is invalid; else the compiled pattern (with IGNORECASE
+    the object `compiled_i(p)` whose search is pat_search; other flag values: an uninterpreted object of (p, flags))."""
+    import re as _re_mod
+    p = args[0]
+    valid = _z3.Function("uf.re_valid", _z3.StringSort(), _z3.BoolSort())(p.t)
+    ex.ufs_used.add("re_valid")
+    if not ex.decide(valid):
+        raise _RaiseSig(_VExc("error"))
+    flags = args[1] if len(args) > 1 else kwargs.get("flags")
+    fl = getattr(flags, "py", 0) if flags is not None else 0
+    if fl == _re_mod.IGNORECASE:
+        ex.ufs_used.add("compiled_i")
+        return _VOpaque(_z3.Function("uf.compiled_i", _z3.StringSort(), PatternT.sort())(p.t), PatternT)
+    return _VOpaque(_z3.Function(f"uf.compiled_flags_{int(fl)}", _z3.StringSort(), PatternT.sort())(p.t), PatternT)
+
+
+V = PV
+ValidatorT = Rec("PatternValidator", cls=PV + "PatternValidator")
+
+
+def deny_pattern_of(item):
+    """_extract_pattern: a plain string is the pattern; a dict contributes item.get('pattern', '')."""
+    return item if isinstance(item, str) else item.get("pattern", "")
+
+
+@opaque
+def vpat(item: Any) -> Str:
+    return item if isinstance(item, str) else item.get("pattern", "")
+
+
+def strs_valid(s: SeqOf(Str)) -> Bool:
+    return len(s) == 0 or (re_valid(s[0]) and strs_valid(s[1:]))
+
+
+def items_valid(items: SeqOf(Any)) -> Bool:
+    return len(items) == 0 or (re_valid(vpat(items[0])) and items_valid(items[1:]))
+
+
+def allow_valid(rule):
+    return implies("allow" in rule, strs_valid(as_str_list(rule["allow"])))
+
+
+def deny_valid(rule):
+    return implies("deny" in rule, items_valid(as_list(rule["deny"])))
+
+
+def rule_valid(rule):
+    """Every allow pattern and every deny pattern of one rule dict compiles."""
+    return allow_valid(rule) and deny_valid(rule)
+
+
+def dirs_valid(dirs: Directories) -> Bool:
+    return len(dirs) == 0 or (rule_valid(dirs[0][1]) and dirs_valid(dirs[1:]))
+
+
+def config_valid(cfg):
+    """Property text: no pattern anywhere in the configuration is syntactically invalid."""
+    return (implies("directories" in cfg, dirs_valid(cfg["directories"]))
+            and implies("global_patterns" in cfg, rule_valid(cfg["global_patterns"]))
+            and implies("global_deny" in cfg, items_valid(cfg["global_deny"])))
+
+
+@contract(PV + "_extract_pattern", props=["C18"], types=dict(deny_item=Any), returns=Str)
+class ExtractPattern:
+    def requires(deny_item):
+        return item_ok(deny_item)
+
+    def reveals(deny_item):
+        return reveal(item_ok, deny_item) and reveal(vpat, deny_item)
+
+    def value(deny_item):
+        return vpat(deny_item)
+
+
+@contract(PV + "PatternValidator._validate_pattern", props=["C18"], types=dict(self=ValidatorT, pattern=Str),
+          raises=["ValueError"])
+class ValidatePattern:
+    def raises_when(self, pattern):
+        return not re_valid(pattern)
+
+
+@contract(PV + "PatternValidator._validate_allow_patterns", props=["C18"], types=dict(self=ValidatorT, rules=Dict, pattern=Str),
+          raises=["ValueError"], modifies=[])
+class ValidateAllowPatterns:
+    def requires(self, rules):
+        return wf_rules(rules)
+
+    def raises_when(self, rules):
+        # a rule without an allow list is fine (deny-only rules are documented)
+        return not allow_valid(rules)
+
+    def inv0(self, rules, rest):
+        return "allow" in rules and strs_valid(as_str_list(rules["allow"])) == strs_valid(rest)
+
+
+@contract(PV + "PatternValidator._validate_deny_patterns", props=["C18"],
+          types=dict(self=ValidatorT, rules=Dict, deny_item=Any, pattern=Str), raises=["ValueError"], modifies=[])
+class ValidateDenyPatterns:
+    def requires(self, rules):
+        return wf_rules(rules)
+
+    def raises_when(self, rules):
+        return not deny_valid(rules)
+
+    def inv0(self, rules, rest):
+        return "deny" in rules and items_valid(as_list(rules["deny"])) == items_valid(rest) and well_formed_items(rest)
+
+
+@contract(PV + "PatternValidator._validate_directory_patterns", props=["C18"],
+          types=dict(self=ValidatorT, fp_config=FPConfigT, rules=Dict, _dir_path=Str), raises=["ValueError"], modifies=[])
+class ValidateDirectoryPatterns:
+    def requires(self, fp_config):
+        return wf_config(fp_config)
+
+    def reveals(self, fp_config):
+        return implies("directories" in fp_config, reveal(wf_directories, fp_config["directories"]))
+
+    def raises_when(self, fp_config):
+        # EVERY directory rule is validated: an invalid pattern in any of them is a configuration error
+        return "directories" in fp_config and not dirs_valid(fp_config["directories"])
+
+    def inv0(self, fp_config, rest):
+        return "directories" in fp_config and dirs_valid(fp_config["directories"]) == dirs_valid(rest) \
+            and reveal(wf_directories, rest) and wf_directories(rest)
+
+
+@contract(PV + "PatternValidator._validate_global_patterns", props=["C18"], types=dict(self=ValidatorT, fp_config=FPConfigT),
+          raises=["ValueError"], modifies=[])
+class ValidateGlobalPatterns:
+    def requires(self, fp_config):
+        return wf_config(fp_config)
+
+    def raises_when(self, fp_config):
+        return "global_patterns" in fp_config and not rule_valid(fp_config["global_patterns"])
+
+
+@contract(PV + "PatternValidator._validate_global_deny_patterns", props=["C18"],
+          types=dict(self=ValidatorT, fp_config=FPConfigT, deny_item=Any, pattern=Str), raises=["ValueError"], modifies=[])
+class ValidateGlobalDenyPatterns:
+    def requires(self, fp_config):
+        return wf_config(fp_config)
+
+    def raises_when(self, fp_config):
+        return "global_deny" in fp_config and not items_valid(fp_config["global_deny"])
+
+    def inv0(self, fp_config, rest):
+        return "global_deny" in fp_config and items_valid(fp_config["global_deny"]) == items_valid(rest) \
+            and well_formed_items(rest)
+
+
+@contract(PV + "PatternValidator.validate_config", props=["C18"], types=dict(self=ValidatorT, config=FPConfigT),
+          raises=["ValueError"], modifies=[])
+class ValidateConfig:
+    def requires(self, config):
+        return wf_config(config)
+
+    def raises_when(self, config):
+        # property text: a syntactically invalid pattern (anywhere) is rejected as a configuration error -- and only then
+        return not config_valid(config)
+
+
+# =================================================================== path resolver + linter flow (lint_path)
+# Property text: "the verdict depends only on the file's path relative to the project root": the rules are matched
+# against exactly the project-relative path, spelled with forward slashes -- nothing else of the input reaches them.
+PRS = "src/linters/file_placement/path_resolver.py::"
+LN = "src/linters/file_placement/linter.py::"
+ResolverT = Rec("PathResolver", cls=PRS + "PathResolver", project_root=PathT)
+ComponentsT = Rec("_Components", cls=LN + "_Components", path_resolver=ResolverT, rule_checker=CheckerT)
+LinterT = Rec("FilePlacementLinter", cls=LN + "FilePlacementLinter", project_root=PathT, _components=ComponentsT,
+              config=FPConfigT)
+CACHE = "self._components.rule_checker.pattern_matcher._compiled_patterns"
+
+
+def forward_slashes(s):
+    """The same path spelled with '/' as the only separator (Windows spellings use a backslash)."""
+    return s.replace("\\", "/")
+
+
+@contract(PRS + "PathResolver.normalize_path_string", props=["C18", "C09"], types=dict(self=ResolverT, path=PathT), returns=Str)
+class NormalizePathString:
+    def value(self, path):
+        return forward_slashes(path_str(path))
+
+    def ensures_a_forward_slash_path_is_handed_on_unchanged(self, path, result):
+        # no character of the project-relative path is dropped or rewritten (leading dots, leading '/', case, ...)
+        return implies("\\" not in path_str(path), result == path_str(path))
+
+
+def relative_path_of(linter, file_path):
+    """The project-relative path (contract of PathResolver.get_relative_path, contracts/c09_path_predicates.py)."""
+    return call(PRS + "PathResolver.get_relative_path", linter._components.path_resolver, file_path)
+
+
+def code_verdict(cfg, path):
+    """What check_all_rules decides for a path string (finding-adjusted composition, see C18-global-on-covered)."""
+    return dir_reports(cfg, path) or global_reports(cfg, path)
+
+
+@contract(LN + "FilePlacementLinter._unwrap_config", props=["C18", "C05"], types=dict(config=Dict), returns=Any, modifies=[])
+class UnwrapConfig:
+    def value(config):
+        return config.get("file-placement", config.get("file_placement", config))
+
+
+@contract(LN + "FilePlacementLinter.lint_path", props=["C18", "C09"], types=dict(self=LinterT, file_path=PathT),
+          returns=SeqOf(ViolationT), modifies=[CACHE])
+class LintPath:
+    def requires(self, file_path):
+        return wf_config(self.config)
+
+    def ensures_verdict_is_a_function_of_the_project_relative_path(self, file_path, result):
+        return (len(result) > 0) == code_verdict(self.config, forward_slashes(path_str(relative_path_of(self, file_path))))
+
+    def ensures_no_rules_no_violation(self, file_path, result):
+        return implies("directories" not in self.config and "global_deny" not in self.config
+                       and "global_patterns" not in self.config, len(result) == 0)
+
+
+@contract(LN + "FilePlacementLinter.check_file_allowed", props=["C18"], types=dict(self=LinterT, file_path=PathT),
+          returns=Bool, modifies=[CACHE])
+class CheckFileAllowed:
+    def requires(self, file_path):
+        return wf_config(self.config)
+
+    def ensures_allowed_iff_not_reported(self, file_path, result):
+        return result == (not code_verdict(self.config, forward_slashes(path_str(relative_path_of(self, file_path)))))
+
+
+def any_reported(cfg: FPConfigT, resolver: ResolverT, files: SeqOf(PathT)) -> Bool:
+    """Some file of the list is reported (each judged by its own project-relative path)."""
+    return len(files) > 0 and (
+        code_verdict(cfg, forward_slashes(path_str(call(PRS + "PathResolver.get_relative_path", resolver, files[0]))))
+        or any_reported(cfg, resolver, files[1:]))
+
+
+@lemma(props=["C18", "C09"], types=dict(cfg=FPConfigT, c1=ComponentsT, c2=ComponentsT, root1=PathT, root2=PathT, f1=PathT, f2=PathT),
+       name="verdict-depends-only-on-the-relative-path")
+def verdict_depends_only_on_relative_path(cfg, c1, c2, root1, root2, f1, f2):
+    """Two projects (different roots, different absolute locations) with the same rules: files with the same
+    project-relative path get the same verdict."""
+    if not wf_config(cfg):
+        return True
+    l1 = mk(LinterT, project_root=root1, _components=c1, config=cfg)
+    l2 = mk(LinterT, project_root=root2, _components=c2, config=cfg)
+    if path_str(relative_path_of(l1, f1)) != path_str(relative_path_of(l2, f2)):
+        return True
+    v1 = call(LN + "FilePlacementLinter.lint_path", l1, f1)
+    v2 = call(LN + "FilePlacementLinter.lint_path", l2, f2)
+    return (len(v1) > 0) == (len(v2) > 0)
+
+
+@contract(LN + "FilePlacementLinter._lint_files", props=["C18"],
+          types=dict(self=LinterT, file_paths=SeqOf(PathT), violations=SeqOf(ViolationT), file_path=PathT),
+          returns=SeqOf(ViolationT), modifies=[CACHE])
+class LintFiles:
+    def requires(self, file_paths):
+        return wf_config(self.config)
+
+    def ensures_reports_iff_some_file_is_reported(self, file_paths, result):
+        return (len(result) > 0) == any_reported(self.config, self._components.path_resolver, file_paths)
+
+    def inv0(self, file_paths, violations, rest, old):
+        return wf_config(self.config) and self.config == old.self.config and self.project_root == old.self.project_root \
+            and self._components.path_resolver.project_root == old.self._components.path_resolver.project_root \
+            and any_reported(self.config, self._components.path_resolver, file_paths) \
+            == (len(violations) > 0 or any_reported(self.config, self._components.path_resolver, rest))
+
+
+# ------------------------------------------------------------------ construction: the configuration is validated
+def unwrapped(config):
+    """The file-placement section of a config object (wrapped under 'file-placement' / 'file_placement', or bare)."""
+    return config.get("file-placement", config.get("file_placement", config))
+
+
+@contract(LN + "FilePlacementLinter.__init__", props=["C18"],
+          types=dict(self=Rec("FilePlacementLinter", cls=LN + "FilePlacementLinter"), config_file=Opt(Str),
+                     config_obj=Opt(FPConfigT), project_root=Opt(PathT)),
+          raises=["ValueError"], modifies=["self"], inline=["__init__"])
+class LinterInit:
+    """View for an UNWRAPPED config object (the form the rule passes after _extract_inline_config / _load_layout_config)."""
+
+    def requires(self, config_file, config_obj, project_root):
+        return config_obj is not None and config_obj != {} and wf_config(config_obj) and config_file is None
+
+    def raises_when(self, config_file, config_obj, project_root):
+        # property text: a syntactically invalid pattern is rejected as a configuration error (at construction)
+        return not config_valid(config_obj)
+
+    def ensures_paths_are_taken_relative_to_the_given_project_root(self, config_file, config_obj, project_root):
+        return implies(project_root is not None, self._components.path_resolver.project_root == project_root
+                       and self.project_root == project_root)
+
+    def ensures_the_given_rules_are_the_rules_in_force(self, config_file, config_obj, project_root, old):
+        return implies("file-placement" not in old.config_obj and "file_placement" not in old.config_obj,
+                       ("directories" in self.config) == ("directories" in old.config_obj)
+                       and ("global_deny" in self.config) == ("global_deny" in old.config_obj)
+                       and ("global_patterns" in self.config) == ("global_patterns" in old.config_obj))
+
+
+# ------------------------------------------------------------------ the framework rule: check() -> lint_path
+from pyvc.api import uf  # noqa: E402
+
+RuleCtxT = Rec("LintContext", file_path=Opt(PathT), file_content=Opt(Str), language=Str, metadata=Any)
+FPRuleT = Rec("FilePlacementRule", cls=LN + "FilePlacementRule", config=Dict)
+fp_project_root = uf("fp_project_root", [RuleCtxT], PathT)           # the project root the rule works with for a context
+fp_rules_for = uf("fp_rules_for", [PathT, RuleCtxT], FPConfigT)      # the (unwrapped) rules in force for that project
+fp_checker_for = uf("fp_checker_for", [PathT], CheckerT)
+
+
+@contract(LN + "FilePlacementRule._get_project_root", props=["C18", "C09"], types=dict(self=FPRuleT, context=RuleCtxT),
+          returns=PathT,
+          assumed="project-root discovery (orchestrator metadata `_project_root`, else marker search on the file system): "
+                  "property C09; here only 'a function of the context'")
+class GetProjectRoot:
+    def value(self, context):
+        return fp_project_root(context)
+
+
+@contract(LN + "FilePlacementRule._get_or_create_linter", props=["C18"],
+          types=dict(self=FPRuleT, project_root=PathT, context=Opt(RuleCtxT)), returns=LinterT,
+          assumed="per-project linter cache and configuration loading (inline metadata or layout file: C05/C08): returns a "
+                  "validated linter FOR THE GIVEN project root whose rules are a function of (project root, context); "
+                  "construction itself (FilePlacementLinter.__init__) is verified separately")
+class GetOrCreateLinter:
+    def value(self, project_root, context):
+        return mk(LinterT, project_root=project_root,
+                  _components=mk(ComponentsT, path_resolver=mk(ResolverT, project_root=project_root),
+                                 rule_checker=fp_checker_for(project_root)),
+                  config=fp_rules_for(project_root, context))
+
+    def ensures_rules_are_well_formed(self, project_root, context, result):
+        return wf_config(result.config)
+
+
+@contract(LN + "FilePlacementRule.check", props=["C18"], types=dict(self=FPRuleT, context=RuleCtxT),
+          returns=SeqOf(ViolationT),
+          no_selftest=True)  # natively the assumed callees run for real (linter cache, file system): no native cross-check
+class FilePlacementRuleCheck:
+    def ensures_nothing_without_a_path(self, context, result):
+        return implies(context.file_path is None, len(result) == 0)
+
+    def ensures_verdict_of_the_rules_on_the_project_relative_path(self, context, result):
+        return implies(context.file_path is not None,
+                       (len(result) > 0) == code_verdict(
+                           fp_rules_for(fp_project_root(context), context),
+                           forward_slashes(path_str(call(PRS + "PathResolver.get_relative_path",
+                                                         mk(ResolverT, project_root=fp_project_root(context)),
+                                                         context.file_path)))))
+
+
+# ------------------------------------------------------------------ which rules / which root the rule takes from the context
+@contract(LN + "FilePlacementRule._has_valid_metadata", props=["C18", "C05"], types=dict(self=FPRuleT, context=Opt(RuleCtxT)),
+          returns=Bool)
+class HasValidMetadata:
+    def value(self, context):
+        return context is not None and bool(context.metadata)
+
+
+@contract(LN + "FilePlacementRule._get_root_from_metadata", props=["C18", "C09"], types=dict(self=FPRuleT, context=RuleCtxT),
+          returns=Any)
+class GetRootFromMetadata:
+    def requires(self, context):
+        return isinstance(context.metadata, dict) or context.metadata is None
+
+    def value(self, context):
+        # the orchestrator's project root, when it supplied one, is used as is
+        return context.metadata["_project_root"] if (context.metadata and "_project_root" in context.metadata) else None
+
+
+@contract(LN + "FilePlacementRule._get_wrapped_config", props=["C18", "C05"], types=dict(context=RuleCtxT), returns=Any)
+class GetWrappedConfig:
+    def requires(context):
+        return isinstance(context.metadata, dict)
+
+    def value(context):
+        # hyphenated section name first, then the underscored one, else None
+        return context.metadata["file-placement"] if "file-placement" in context.metadata else (
+            context.metadata["file_placement"] if "file_placement" in context.metadata else None)
